@@ -37,6 +37,14 @@ def source(draw, idx):
     for r in rows:
         if draw(st.integers(0, 3)) > 0:
             r['desc'] = lang.flip_case(' '.join(draw(st.lists(lang.word, min_size=1, max_size=3))), draw(st.one_of(st.just(0), st.integers(0, 65535))))
+    # the same charge repeated in one file (same description, amount, date) with different extra columns / location
+    good = [r for r in rows if r['kind'] == 'good']
+    if good and draw(st.integers(0, 2)) == 0:
+        base = draw(st.sampled_from(good))
+        twin = copy.deepcopy(base)
+        twin['customs'] = {c: draw(st.sampled_from(['WIRE', 'ACH-OUT', 'alice', 'bob', ''])) for c in twin['customs']}
+        twin['loc'] = draw(st.sampled_from(['', 'WA', 'NY', base['loc']]))
+        rows.insert(draw(st.integers(0, len(rows))), twin)
     return {'layout': lay, 'rows': rows, 'state': draw(st.sampled_from(['ok', 'ok', 'ok', 'ok', 'ok', 'missing', 'garbage', 'directory']))}
 
 
@@ -61,6 +69,19 @@ def budget(draw, min_sources=1, max_sources=4, allow_broken=True, rules_kinds=('
         extra = [{'name': f'Known {w.title()}', 'match': ['match', 'contains', None, w], 'category': draw(st.sampled_from(R.CATEGORIES)), 'subcategory': draw(st.sampled_from(R.SUBCATS)),
                   'merchant': None, 'priority': None, 'tags': draw(st.lists(st.sampled_from(['recurring', 'income', 'transfer']), max_size=1)), 'lets': [], 'fields': []}
                  for w in draw(st.lists(st.sampled_from(words), min_size=1, max_size=3, unique=True))]
+        # rules deciding on what only one row of a repeated charge carries: its extra columns and its location
+        customs = sorted({(c, v.strip()) for s_ in sources for r in s_['rows'] for c, v in r['customs'].items() if v.strip() and c in lang.FIELD_KEYS and '"' not in v and '\\' not in v})
+        locs = sorted({r['loc'].strip() for s_ in sources for r in s_['rows'] if 'location' in s_['layout']['cols'] and r['loc'].strip()})
+        for _ in range(draw(st.integers(0, 2))):
+            if customs and draw(st.booleans()):
+                c, v = draw(st.sampled_from(customs))
+                m = ['and', [['exists', ['field', c]], ['cmp', ['field', c], [['==', ['str', v]]]]]]
+            elif locs:
+                m = ['cmp', ['name', 'location'], [['==', ['str', draw(st.sampled_from(locs))]]]]
+            else:
+                continue
+            extra.insert(0, {'name': f'Row fact {len(extra)}', 'match': m, 'category': draw(st.sampled_from(R.CATEGORIES)), 'subcategory': draw(st.sampled_from(R.SUBCATS)),
+                             'merchant': None, 'priority': None, 'tags': draw(st.lists(st.sampled_from(['recurring', 'income', 'transfer']), max_size=1)), 'lets': [], 'fields': []})
         pos = draw(st.integers(0, len(rf['rules'])))
         b['rf'] = dict(rf, rules=rf['rules'][:pos] + extra + rf['rules'][pos:])
     elif kind == 'csv':
@@ -116,7 +137,7 @@ def materialise(b, bd, drop_source=None, mutate_source=None):
             bd.write(rel, b'\xff\xfe\x00\x80garbage\xc3\x28\n' * 3, binary=True)
         elif state == 'directory':
             os.makedirs(bd.path(rel), exist_ok=True)
-        info.append({'src': src, 'state': state, 'path': bd.path(rel), 'expected_rows': expected if state == 'ok' else []})
+        info.append({'case': case, 'src': src, 'state': state, 'path': bd.path(rel), 'expected_rows': expected if state == 'ok' else []})
     entries = [i_['src'] for i_ in info]
     settings['data_sources'] = (supp_entries + entries) if b['supp_position'] == 'first' else (entries + supp_entries)
     rules_path = None
@@ -151,6 +172,7 @@ def compose(b, mat):
     supp = {k.lower(): v for k, v in supp.items()}
     txns = []
     per_source = {}
+    row_mismatch = None
     for i_ in mat['sources']:
         if i_['state'] != 'ok':
             continue
@@ -163,6 +185,20 @@ def compose(b, mat):
         if 'negate_amount' in src:
             spec.negate_amount = src['negate_amount']
         got = parse_generic_csv(i_['path'], spec, rules, source_name=src['name'], decimal_separator=src.get('decimal_separator', '.'), transforms=transforms, data_sources=supp)
+        # classify(parse(.)) row by row: the file's transactions must be those of its rows read one at a time (same settings, same rules)
+        alone = []
+        for r in i_['case']['rows']:
+            text1 = C05.build({'layout': i_['case']['layout'], 'rows': [r]})[0]
+            p1 = i_['path'] + '.row'
+            with open(p1, 'w', encoding='utf-8', newline='') as f:
+                f.write(text1)
+            alone.extend(parse_generic_csv(p1, spec, rules, source_name=src['name'], decimal_separator=src.get('decimal_separator', '.'), transforms=transforms, data_sources=supp))
+            os.unlink(p1)
+        fact = lambda t: (t['raw_description'], t['amount'], str(t['date']), t['merchant'], t['category'], t['subcategory'], sorted(t['tags']), t.get('extra_fields') or None,
+                          t['field'], t['location'])
+        if row_mismatch is None and [fact(t) for t in got] != [fact(t) for t in alone]:
+            pairs = [(fact(x), fact(y)) for x, y in zip(got, alone) if fact(x) != fact(y)]
+            row_mismatch = {'source': src['name'], 'in_file': pairs[0][0] if pairs else len(got), 'alone': pairs[0][1] if pairs else len(alone)}
         per_source[src['name']] = got
         txns.extend(got)
     stats = analyze_transactions(copy.deepcopy(txns)) if txns else None
@@ -171,4 +207,4 @@ def compose(b, mat):
         cfg = se.parse_sections(V.render_views(b['views']))
         res = classify_by_sections(stats['by_merchant'], cfg, stats['num_months'])
         views = {n: {m for m, _ in ms} for n, ms in res.items()}
-    return {'txns': txns, 'stats': stats, 'views': views, 'per_source': per_source}
+    return {'txns': txns, 'stats': stats, 'views': views, 'per_source': per_source, 'row_mismatch': row_mismatch}
